@@ -230,10 +230,12 @@ VTYPES = [("f32", 4), ("vec2<f32>", 8), ("vec3<f32>", 12), ("vec4<f32>", 16), ("
 def gen_entries(rng, names, ov_names):
     """returns (struct/decl lines, entry lines, truth)"""
     decl, ents, truth = [], [], []
-    nv, nf, nc = rng.choice([(1, 1, 0), (0, 0, 1), (1, 1, 1), (2, 1, 0), (0, 2, 2), (1, 0, 0), (0, 1, 0), (2, 2, 2), (0, 0, 0)])
+    nv, nf, nc = rng.choice([(1, 1, 0), (0, 0, 1), (1, 1, 1), (2, 1, 0), (0, 2, 2), (1, 0, 0), (0, 1, 0), (2, 2, 2), (0, 0, 0),
+                             (3, 1, 0), (3, 0, 1), (2, 0, 0)])
     use_ov = ("_ = %s;" % ov_names[0]) if ov_names else ""
     vstructs = []
-    for i in range(rng.randint(0, 3)):
+    first_chosen = None
+    for i in range(rng.randint(0, 3) if nv < 2 else rng.randint(2, 3)):
         sn = names.fresh("VIn")
         sn = sn[0].upper() + sn[1:]
         fields, locs, has_bi = [], set(), False
@@ -260,12 +262,22 @@ def gen_entries(rng, names, ov_names):
         chosen, usedloc, used_bi = [], set(), False
         pool = list(vstructs)
         rng.shuffle(pool)
-        for sn, locs, has_bi in pool[: rng.randint(0, 3)]:
+        for sn, locs, has_bi in pool[: rng.randint(0, 3) if not (nv >= 2 and k == 0) else rng.randint(2, 3)]:
             if locs & usedloc or (has_bi and used_bi):
                 continue
             usedloc |= locs
             used_bi = used_bi or has_bi
             chosen.append(sn)
+        if k >= 1 and first_chosen and len(first_chosen) >= 2 and rng.random() < 0.7:
+            # share a struct with the first vertex entry NON-adjacently in the flattened parameter list: [A, B, .., A]
+            chosen = [first_chosen[0]] + ([c for c in chosen if c not in first_chosen][:1] if rng.random() < 0.3 else [])
+            if len(chosen) == 2:
+                # keep locations / builtins disjoint
+                info = {sn: (locs, bi) for sn, locs, bi in vstructs}
+                if info[chosen[0]][0] & info[chosen[1]][0] or (info[chosen[0]][1] and info[chosen[1]][1]):
+                    chosen = chosen[:1]
+        if k == 0:
+            first_chosen = list(chosen)
         params = ["p%d: %s" % (i, sn) for i, sn in enumerate(chosen)]
         if rng.random() < 0.3:
             params.insert(rng.randrange(len(params) + 1), "@builtin(instance_index) ii: u32")
